@@ -126,6 +126,14 @@ theorem firstPrimes_spec {dim : Nat} {l : List Nat} (h : haltonBases dim = some 
 
 example : haltonBases 6 = some [2, 3, 5, 7, 11, 13] := by decide +kernel
 
+/-- The bases loop succeeds for up to 169 parameters (two rounds of the sieve: primes below 10, below 1010).
+PARTIAL.  Full statement, not proved: `∀ dim, ∃ l, haltonBases dim = some l` – the loop of `halton` terminates
+for every dimension; it needs the prime-counting bound `dim ≤ π(10 + 1000·dim)`.  For larger `dim` the model
+answers `none` explicitly when its (artificial) fuel runs out, and `firstPrimes_spec`/`halton_point` are stated
+for the successful case; the correspondence check exercises 175 and (thorough) up to 200 parameters. -/
+theorem haltonBases_defined_partial {dim : Nat} (h : dim ≤ 169) : ∃ l, haltonBases dim = some l :=
+  haltonBases_defined_169 h
+
 /-- **Halton point.**  The `(i+1)`-th point (`i` 0-based: the burn-in point of index 0 is dropped) has, for the
 `j`-th parameter, the radical inverse of `i+1` in the `j`-th prime, scaled to the bounds; `N` points, one
 coordinate per parameter. -/
